@@ -18,12 +18,13 @@ as a transition system whose `Choice` list is the interleaving of lookups and da
 * `c20_cache_silent`      once a client resolved a name, each later lookup of it — after any
                           further activity — returns the same address and changes nothing but the
                           result log: no datagram, no socket.
-* `c20_unregistered`      an unknown name is never answered with an address: the responder stops
-                          with `Err(Cache)`, which the spawned task unwraps (the process ends).
+* `c20_unregistered`      an unknown name yields a reported error (`Err(Cache)`, logged by the
+                          responder task; no reply is sent) and is never resolved to an address.
+* `c20_never_fails`       with the authoritative server `get_host_by_name` never returns an error.
 * `c20_completes`         (progress of the model) when no datagram is left in flight and no panic
                           occurred, every lookup that opened a socket has returned.
-* F-C20-1 (fixed): `c20_recv80_regression` — with `recv(80)` a registered 25-byte name kills the
-  server; `c20_recv_budget_partial` — names up to 24 bytes were unaffected;
+* F-C20-1 (fixed): `c20_recv80_regression` — with `recv(80)` the query for a registered 25-byte
+  name is undecodable for the server (at the time: process exit; now: no answer); `c20_recv_budget_partial` — names up to 24 bytes were unaffected;
   `c20_server_reads_whole_datagram` — the source now reads the whole datagram (certificate).
 * F-C20-2 (fixed): `c20_standin_override_regression`, `c20_configured_record_wins`.
 
@@ -46,6 +47,11 @@ theorem c20_standins_do_not_override : Elvis.Gen.dnsBuiltinOverrides = false := 
     one send, one receive, cache insert, lookup) and talks to the port the server listens on -/
 theorem c20_client_shape_certificate :
     Elvis.Gen.dnsClientShape = true ∧ Elvis.Gen.dnsClientRemotePort = Elvis.Gen.dnsServerPort := by decide
+
+/-- failures are values, not panics: the responder task logs what `respond_to_query` returns and
+    unwraps nothing before the reply is built; the resolver unwraps nothing after `recv_msg` -/
+theorem c20_errors_reported_certificate :
+    Elvis.Gen.dnsServerReportsErrors = true ∧ Elvis.Gen.dnsClientReportsErrors = true := by decide
 
 /-! ## T1: the response echoes the request -/
 
@@ -87,6 +93,12 @@ theorem c20_resolve_correct (table : Table) (n : Nat) (cs : List Choice) (hcs : 
   have ht : s.table = table := run_table _ _
   refine ⟨fun c name a k he => ?_, fun c name id m he => hinv.evAcc c name id m he⟩
   rw [← ht]; exact (hinv.evRes c name a k he).1
+
+/-- with the authoritative server (and `FourTupleIsolation`) no lookup ever returns an error: a
+    lookup returns the record, or — unknown name, discarded query — does not return -/
+theorem c20_never_fails (table : Table) (n : Nat) (cs : List Choice) (hcs : ∀ ch ∈ cs, ChoiceOk ch) :
+    ∀ c name e, Event.failed c name e ∉ (run (init table n) cs).events :=
+  (run_inv c20_server_reads_whole_datagram hcs (init_inv table n)).evFail
 
 /-- what the table built from the registrations answers: the last registration of a name, the
     stand-in record for a stand-in name nobody registered -/
@@ -140,31 +152,35 @@ theorem c20_cache_silent (table : Table) (n : Nat) (cs cs' : List Choice)
 /-! ## progress of the model: nothing in flight = every lookup has returned -/
 
 /-- For every interleaving: if no panic occurred and no datagram is left in flight, every socket a
-    lookup opened has consumed its reply and its lookup has returned an address (which, by
-    `c20_resolve_correct`, is the server's record).  (A delivered query is answered, a delivered
-    reply is consumed by its socket: the model loses nothing; the real stack's bounded queues are
-    exercised by the runs only.) -/
+    lookup opened for a name the server has a record of has consumed its reply and its lookup has
+    returned that record.  (A delivered query for a known name is answered, a delivered reply is
+    consumed by its socket: the model loses nothing; the real stack's bounded queues are exercised
+    by the runs only.  A lookup of an unknown name is never answered and never returns.) -/
 theorem c20_completes (table : Table) (n : Nat) (cs : List Choice) (hcs : ∀ ch ∈ cs, ChoiceOk ch) :
     let s := run (init table n) cs
     s.crashed = none → s.net = [] →
-      ∀ so ∈ s.socks, so.done = true ∧ ∃ a, Event.resolved so.client so.name a false ∈ s.events ∧ table.get so.name = some a := by
-  intro s hcr hnet so hso
+      ∀ so ∈ s.socks, ∀ a, table.get so.name = some a →
+        so.done = true ∧ Event.resolved so.client so.name a false ∈ s.events := by
+  intro s hcr hnet so hso a hreg
   have hb := c20_server_reads_whole_datagram
   have hlive : Live s := run_live hb hcs (init_inv table n) (init_live table n)
+  have ht : s.table = table := run_table _ _
   have hdone : so.done = true := by
     cases hd : so.done with
     | true => rfl
     | false =>
-      obtain ⟨d, hdm, _⟩ := hlive.pending hcr so hso hd
+      obtain ⟨d, hdm, _⟩ := hlive.pending hcr so hso hd ⟨a, by rw [ht]; exact hreg⟩
       rw [hnet] at hdm; cases hdm
-  obtain ⟨a, ha⟩ := hlive.doneRes so hso hdone
-  exact ⟨hdone, a, ha, (c20_resolve_correct table n cs hcs).1 _ _ _ _ ha⟩
+  obtain ⟨a', ha'⟩ := hlive.doneRes so hso hdone
+  have := (c20_resolve_correct table n cs hcs).1 _ _ _ _ ha'
+  rw [hreg] at this; cases this
+  exact ⟨hdone, ha'⟩
 
 /-! ## unknown names -/
 
 theorem c20_unregistered (t : Table) (name : Bytes) (id : Nat) (hn : NameOk name) (hid : id < 65536)
     (h : t.get name = none) :
-    respond t (queryBytes name id) = .error "panic:unwrap:server_respond_to_query" ∧
+    respond t (queryBytes name id) = .error "err:Cache:server_unknown_name" ∧
     ∀ (n : Nat) (cs : List Choice), (∀ ch ∈ cs, ChoiceOk ch) →
       ∀ c a cached, Event.resolved c name a cached ∉ (run (init t n) cs).events := by
   constructor
@@ -174,18 +190,27 @@ theorem c20_unregistered (t : Table) (name : Bytes) (id : Nat) (hn : NameOk name
     have := (c20_resolve_correct t n cs hcs).1 c name a cached hmem
     rw [h] at this; cases this
 
+/-- an unknown name in a run: the query is logged as unanswered, nothing comes back, the lookup
+    neither resolves nor fails -/
+example :
+    let t : Table := [([97], ⟨1, 2, 3, 4⟩)]
+    let s := run (init t 1) [.lookup 0 [98] 5, .deliver 0]
+    s.crashed = none ∧ s.net = [] ∧ s.events.getLast? = some (.unanswered (.client 0 49152) "err:Cache:server_unknown_name") := by
+  decide
+
 /-- a table with a record for "a" has none for "b"; both are carriable names -/
 example : Table.get [([97], ⟨1, 2, 3, 4⟩)] [98] = none ∧ NameOk [98] := by decide
 
 /-! ## F-C20-1 (fixed): the request was read with `recv(80)` -/
 
-/-- a registered name of 25 bytes: the 82-byte query is cut to 80, the parse fails, the responder
-    task panics -/
+/-- a registered name of 25 bytes: the 82-byte query is cut to 80 and the parse fails (when the
+    defect was found the responder unwrapped the result and the process ended; as the code is now
+    the query would go unanswered and the lookup would never return) -/
 theorem c20_recv80_regression :
     -- "abcdefghijklmnopqrstuvwxy"
     let name : Bytes := [97, 98, 99, 100, 101, 102, 103, 104, 105, 106, 107, 108, 109, 110, 111, 112, 113, 114, 115, 116, 117, 118, 119, 120, 121]
     NameOk name ∧
-    respondWith (some 80) [(name, ⟨10, 9, 8, 7⟩)] (queryBytes name 7) = .error "panic:unwrap:server_from_bytes" ∧
+    respondWith (some 80) [(name, ⟨10, 9, 8, 7⟩)] (queryBytes name 7) = .error "err:Other:server_from_bytes" ∧
     (respondWith none [(name, ⟨10, 9, 8, 7⟩)] (queryBytes name 7)).toOption.isSome = true := by
   decide
 
